@@ -89,6 +89,23 @@ def rule_eof_before_use(prog, fixture=False):
         vars_ = {}
         for n, d, nm in sites:
             vars_.setdefault(d, nm)
+        # (0) the variable is wide enough to tell EOF from every byte value: it has (at least) the width of int
+        for d, nm in vars_.items():
+            decl = None
+            for v in fn.walk():
+                if v.get("k") == "VarDecl" and v.get("d") == d:
+                    decl = v
+            for p_ in fn.params:
+                if p_["d"] == d:
+                    decl = p_
+            w = (decl or {}).get("w")
+            if decl is not None and w is not None:
+                okw = w >= 32
+                r.add("%s::%s::%s:width" % (fn.relfile(), fn.qn, nm), fn.loc(decl) if decl.get("l") else
+                      "%s:%d" % (fn.relfile(), fn.line), okw, "int-sized" if okw else
+                      "`%s` receives a getc result but is only %d bits wide (%s): the data byte 0xFF and EOF become "
+                      "indistinguishable, so a program byte is taken for end of file (or EOF for data)" %
+                      (nm, w, decl.get("t")))
         # (a) every read of the variable is an EOF comparison or dominated by `v != EOF`
         for d, nm in vars_.items():
             uses = 0
